@@ -673,6 +673,7 @@ var c14Mutants = []Mutant{
 	{Name: "pool-entry-released-early", File: "registry/remote/repository.go", Old: "\tmerge, done := s.repo.referrersMergePool.Get(referrersTag)\n\tdefer done()\n", New: "\tmerge, done := s.repo.referrersMergePool.Get(referrersTag)\n\tdone()\n", Expect: "C14.R3"},
 	{Name: "index-push-error-ignored", File: "registry/remote/repository.go", Old: "\t\t\tif err := s.push(ctx, newIndexDesc, bytes.NewReader(newIndex), referrersTag); err != nil {\n\t\t\t\treturn fmt.Errorf(\"failed to push referrers index tagged by %s: %w\", referrersTag, err)\n\t\t\t}", New: "\t\t\t_ = s.push(ctx, newIndexDesc, bytes.NewReader(newIndex), referrersTag)", Expect: "C14.R3"},
 	{Name: "delete-indexing-ignores-ping", File: "registry/remote/repository.go", Old: "\tif ok {\n\t\t// referrers API is available, no client-side indexing needed\n\t\treturn nil\n\t}\n\treturn s.updateReferrersIndex(", New: "\t_ = ok\n\treturn s.updateReferrersIndex(", Expect: "C14.R3.indexing"},
+	{Name: "capability-error-skips-indexing", File: "registry/remote/repository.go", Old: "\ts.repo.SetReferrersCapability(false)\n\treturn s.updateReferrersIndex(", New: "\tif err := s.repo.SetReferrersCapability(false); err != nil {\n\t\treturn nil\n\t}\n\treturn s.updateReferrersIndex(", Expect: "C14.R3.indexing"},
 	{Name: "push-indexing-skipped-for-index-manifests", File: "registry/remote/repository.go", Old: "\t\tsubject = *manifest.Subject\n\t\tdesc.ArtifactType = manifest.ArtifactType\n\t\tdesc.Annotations = manifest.Annotations\n\tdefault:", New: "\t\treturn nil\n\tdefault:", Expect: "C14.R3.indexing"},
 	{Name: "tag-resolved-outside-merge", File: "registry/remote/repository.go", Old: "\t\t\t\t// valid case: no old referrers index\n\t\t\t\treturn nil\n", New: "\t\t\t\t_ = s.repo.Tag(ctx, subject, referrersTag)\n\t\t\t\treturn nil\n", Expect: "C14.R3.referrers-tag-users"},
 	{Name: "tag-handed-to-unlisted-callee", File: "registry/remote/repository.go", Old: "\tmerge, done := s.repo.referrersMergePool.Get(referrersTag)\n", New: "\tif _, perr := s.repo.ParseReference(referrersTag); perr != nil {\n\t\treturn perr\n\t}\n\tmerge, done := s.repo.referrersMergePool.Get(referrersTag)\n", Expect: "C14.R3.referrers-tag-users"},
